@@ -40,6 +40,9 @@ def make_cores(spec, rng=None):
     for i in spec.get('zero_cores', []):
         if 0 <= i < d:
             cores[i] = np.zeros_like(cores[i])
+    if spec.get('int_dtype') and not spec['cplx']:
+        # integer-typed core arrays (e.g. 0/1 tensors built with dtype=int)
+        cores = [np.rint(2 * c).astype(np.int64) for c in cores]
     return cores
 
 
